@@ -1,8 +1,9 @@
 """C15 — typed objects round-trip through their dictionary form without losing entries."""
 from vplib.api import Case, ok, err
 from oracle import typed as T
+from oracle import typed_hand as H
 from oracle.canon import canon
-from oracle.pdfwriter import Name, Ref
+from oracle.pdfwriter import Name, Ref, Stream
 
 ID = "C15"
 LEVEL = "proof"
@@ -319,6 +320,102 @@ def container_cases(rng, tier):
             yield Case("typed_roundtrip", fields_line(name, v, []), check=check_container(v), tags=tags)
 
 
+
+# ---------------------------------------------------------------------------------------------- every hand-written pair
+
+# types of the universe of Typed/Run.v (ty_by_name): the extracted model runs them too
+HAND_MODELLED = {"Encoding", "BaseEncoding", "FontType", "Rectangle", "Matrix", "Date", "NameTree<Primitive>",
+                 "i32", "u32", "usize", "f32", "bool", "Name", "PdfString", "Primitive", "Dictionary", "PlainRef", "()",
+                 "Ref<Dictionary>", "RcRef<Dictionary>", "MaybeRef<Dictionary>", "MaybeRef<i32>", "Lazy<Dictionary>", "Box<i32>",
+                 "Option<i32>", "Option<Name>", "HashMap<Name,i32>", "HashMap<Name,Option<i32>>", "(i32,Name)", "(f32,f32)",
+                 "Vec<i32>", "Vec<f32>", "Vec<Name>", "Vec<u32>"}
+
+
+def has_stream(v):
+    if isinstance(v, Stream):
+        return True
+    if isinstance(v, dict):
+        return any(has_stream(x) for x in v.values())
+    if isinstance(v, list):
+        return any(has_stream(x) for x in v)
+    return False
+
+
+def check_written(inp, expected, tags=()):
+    """two-sided judgement of sentence 1: the written form of the value read is the form the standard defines for it
+    (the input itself when the input is in the writer's image), and the second write equals the first"""
+    want = None if expected is H.ANY else canon(H.sort_keys(expected))
+
+    def chk(r):
+        if r[0] != "OK":
+            return "%s %s" % (r[0], r[1])
+        f = r[1]
+        if ("cs:unwritable" in tags or "fn:unwritable" in tags) and f[0] == b"ok" and len(f) == 2 and f[1] == b"!Other":
+            # a value the library reads but refuses to write (the crate's `unimplemented!()` is an Err): outside the
+            # quantifier of C15 by its wording ("can both read and write"); were it written, the form below is demanded
+            return None
+        if f[0] != b"ok":
+            return "a value in the domain of the standard is rejected: " + f[0].decode("latin-1")
+        if len(f) < 3:
+            return "the value read cannot be written: " + f[1].decode("latin-1")
+        if len(f) < 4 or f[3] != b"ok":
+            return "written form cannot be read back: " + (f[3].decode("latin-1") if len(f) > 3 else "?")
+        if len(f) < 6:
+            return "re-read value cannot be written: " + f[4].decode("latin-1")
+        if want is not None and f[1] != want:
+            return "written form of the value read from %r is %r, the standard's form is %r" % (inp, T.uncanon(f[1]), expected)
+        if f[1] != f[4]:
+            return "second write differs: %r then %r" % (T.uncanon(f[1]), T.uncanon(f[4]))
+        if "class:stream-direct" in tags and has_stream(T.uncanon(f[1])):
+            return "a stream is written directly inside an array or dictionary (7.3.8: streams are indirect objects)"
+        return None
+    return chk
+
+
+def hand_case(tname, inp, objs, expected, tags, kind):
+    model = tname in HAND_MODELLED and not has_stream(objs)
+    tags = ["hand:" + tname, "kind:" + kind] + list(tags)
+    if kind == "malformed":
+        # outside the standard: no specification; the implementation must agree with the model (where there is one),
+        # must not panic (always), and a successful round trip must be stable
+        def chk(r, _t=tuple(tags)):
+            if r[0] != "OK":
+                return "%s %s" % (r[0], r[1])
+            f = r[1]
+            if len(f) >= 6 and f[1] != f[4]:
+                return "second write differs"
+            return None
+        return Case("typed_roundtrip", fields_line(tname, inp, objs), check=chk, model=model, tags=tags, kind="malformed")
+    return Case("typed_roundtrip", fields_line(tname, inp, objs), check=check_written(inp, expected, tags), model=model, tags=tags)
+
+
+def hand_cases(rng, tier):
+    q = tier == "quick"
+    n = 25 if q else 400
+    for c in H.encoding_cases(rng, 60 if q else 1500):
+        yield hand_case("Encoding", *c)
+    yield from (hand_case(*c) for c in H.name_enum_cases(S(), ("BaseEncoding", "FontType")))
+    for c in H.numbers_cases(rng, 4, n):
+        yield hand_case("Rectangle", *c)
+    for c in H.numbers_cases(rng, 6, n, extra_ok=True):
+        yield hand_case("Matrix", *c)
+    for c in H.date_cases(rng, n):
+        yield hand_case("Date", *c)
+    yield from (hand_case(*c) for c in H.dest_cases(rng, n))
+    G = T.Gen(S(), rng)
+    yield from (hand_case(*c) for c in H.tree_cases(rng, n // 2, False, lambda: G.any_prim(1), "NameTree<Primitive>"))
+    yield from (hand_case(*c) for c in H.tree_cases(rng, n // 2, False, lambda: rng.choice([0, -1, H.I32_MAX, H.I32_MIN]), "NameTree<i32>"))
+    yield from (hand_case(*c) for c in H.tree_cases(rng, n // 2, True, lambda: rng.choice([0, -1, H.I32_MAX, H.I32_MIN]), "NumberTree<i32>"))
+    yield from (hand_case(*c) for c in H.tree_cases(rng, n // 2, True, lambda: rng.choice([{}, {"S": Name("D")}, {"S": Name("r"), "P": b"A-", "St": 1}, {"St": H.I32_MAX}]),
+                                                    "NumberTree<PageLabel>"))
+    for c in H.colorspace_cases(rng, n):
+        yield hand_case("ColorSpace", *c)
+    for c in H.function_cases(rng):
+        yield hand_case("Function", *c)
+    for c in H.cid_to_gid_cases(rng):
+        yield hand_case("CidToGidMap", *c)
+    yield from (hand_case(*c) for c in H.scalar_cases(rng))
+
 WRONG = [None, 7, -1, 2.5, True, Name("Bogus"), b"str", [], [Name("x"), 1], {}, {"a": 1}, Ref(99)]
 
 
@@ -382,12 +479,15 @@ def generate(rng, tier):
     yield from container_cases(rng, tier)
     yield from stream_cases(rng, tier)
     yield from font_cases(rng, tier)
+    yield from hand_cases(rng, tier)
     for _ in range(40 if tier == "quick" else 600):          # explicit destinations: outside the Coq model
         G = T.Gen(S(), rng)
         v = G.action(dests=True)
         yield Case("typed_roundtrip", fields_line("Action", v, []), check=check_hand(v, []), model=not isinstance(v.get("D"), list),
                    tags=["hand:Action"])
     for h, hid in T.MODELLED_HAND.items():
+        if h == "Encoding":
+            continue                                             # hand_cases: boundary generators + the standard's written form
         for _ in range(80 if tier == "quick" else 1500):
             G = T.Gen(S(), rng)
             v = G.prim([33, hid], allow_ref=False)
@@ -416,6 +516,8 @@ def classify(case, impl, model):
         return "C15-e"
     if "class:stream-file" in tags and impl and impl[0] == "OK":
         return "C15-g"
+    if "class:stream-direct" in tags and impl and impl[0] == "OK":
+        return "C15-i"
     return None
 
 
@@ -431,6 +533,9 @@ def witness_case(f, c):
         elif name == "Font":
             c.check, c.model = check_font(v), False
             c.tags.add("class:font-other")
+        elif f["id"] == "C15-i":
+            c.tags.update(["class:stream-direct", "hand:" + name])
+            c.check, c.model = check_written(v, v, c.tags), False
         elif name == "NameTree<Primitive>":
             c.check = check_hand(v, objs)
             c.tags.add("hand:NameTree<Primitive>")
